@@ -85,7 +85,12 @@ Validate(z, wide) ==
            (IF Len(r.owner) > 0 /\ r.owner[1] = <<42>> THEN {<<"NsAtWildcard", r.owner>>} ELSE {})
            \cup (IF r.owner # z.apex /\ ClassHasAddrs(z) THEN Deleg(z, LowerName(NameAt(r.raw, 0).name), r.owner, wide) ELSE {})
         ELSE {}
-  IN [ok |-> TRUE, issues |-> i1 \cup i2 \cup UNION {perRec(z.recs[k]) : k \in 1..Len(z.recs)}]
+      \* validate() reads the name out of every NS and MX RDATA it looks at (classes with address records only) and
+      \* gives up with InvalidRdata when one of them is not exactly a name (the zone API stores any octets)
+      unreadable == ClassHasAddrs(z) /\ \E k \in 1..Len(z.recs) :
+                      (z.recs[k].type = 2 /\ ~Valid(1, 2, z.recs[k].raw)) \/ (z.recs[k].type = 15 /\ ~Valid(1, 15, z.recs[k].raw))
+  IN IF unreadable THEN [ok |-> FALSE, issues |-> {}]
+     ELSE [ok |-> TRUE, issues |-> i1 \cup i2 \cup UNION {perRec(z.recs[k]) : k \in 1..Len(z.recs)}]
 
 IsErrorKind(k) == k \notin {"MissingMxAddress", "NsAtWildcard"}
 ====
